@@ -219,7 +219,7 @@ func WorkerMain(args []string) int {
 	return 0
 }
 
-var reGoroutineHdr = regexp.MustCompile(`(?m)^goroutine \d+ \[([^\]]+)\]:`)
+var reGoroutineHdr = regexp.MustCompile(`(?m)^goroutine \d+ (?:gp=\S+ m=\S+ (?:mp=\S+ )?)?\[([^\]]+)\]:`)
 
 // AnalyseDump decides whether a goroutine dump shows a closed-system deadlock
 // among the goroutines that run gofasta code: every goroutine with a gofasta
@@ -680,6 +680,14 @@ func finish(agg *Agg, start time.Time, replayRoot string) int {
 	sort.Strings(skeys)
 	for _, k := range skeys {
 		fmt.Printf("  distinct %s=%d\n", k, sets[k])
+		if strings.HasPrefix(k, "refused_by_panic") {
+			var ms []string
+			for m := range agg.Sets[k] {
+				ms = append(ms, m)
+			}
+			sort.Strings(ms)
+			fmt.Printf("    %s\n", strings.Join(ms, " "))
+		}
 	}
 	for i, s := range agg.Inconclusive {
 		if i >= 10 {
